@@ -21,7 +21,7 @@ ANCHORS = ["decaylanguage.decay.decay:DecayChain.to_dict", "decaylanguage.decay.
 WORKERS = {"quick": 4, "thorough": 16}
 WTESTS = {"groups": ['chain_to_dict', 'mode_to_dict'], "tests": ['tests/decay', 'tests/utils']}
 REQUIRED = {"same-decaying-twice-in-one-fs": 20, "same-decaying-two-depths": 20, "metadata-nested>=2": 20, "multiplicity-4": 20,
-            "parser-chain": 20, "parser-chain-repeated-daughter": 5, "pdgid-all-ids": 1, "four-constructions": 100, "zero-or-negative-count-in-mapping": 10,
+            "parser-chain": 20, "queried-before-to_dict": 50, "parser-chain-repeated-daughter": 5, "pdgid-all-ids": 1, "four-constructions": 100, "zero-or-negative-count-in-mapping": 10,
             "C11.chain.to_dict.roundtrip": 300, "C11.mode.to_dict.roundtrip": 300}
 EXHAUSTIVE_NOTE = "all PDG IDs of the EvtGen table go through DecayMode.from_pdgids (sharded over workers); tree shapes <= 5 (quick) / 6 (thorough) enumerated"
 ASSUMPTIONS = ["structural equality is judged on public attributes (mother, decays, bf, daughters, metadata); model_params None == ''"]
@@ -89,6 +89,10 @@ def check_chain(ctx, case, workload):
     if not ok:
         return
     contracts.drain()
+    if ctx.rng.random() < 0.3:
+        # other read-only queries on the same object come first: they must not change what to_dict() reports
+        ctx.hit("queried-before-to_dict")
+        ctx.guard("chain-roundtrip:query-before", wit, lambda: (dc.visible_bf, dc.flatten(), dc.to_string(), dc.ndecays))
     ok, d = ctx.guard("chain-roundtrip:to_dict", wit, dc.to_dict)
     for v in contracts.drain():
         ctx.violate(v["mechanism"], v["message"], wit)
